@@ -40,6 +40,8 @@ CONSTANTS FileSize,     \* size of the remote file, in units
           SendUnderLock,\* mutation: _async_request sends the packet while still holding SFTPClient._lock
           IdBeforeLock, \* mutation: _async_request writes request_number into the packet BEFORE taking SFTPClient._lock
           StatusNoWait, \* mutation: a STATUS for a prefetch READ does not wait for the extent to be registered (unknown id = "a write")
+          PrefSizes,    \* sizes an application may pass to prefetch(file_size=N) (N <= FileSize: only the head is prefetched)
+          SeekEndFromPrefetchSize, \* mutation: while prefetching, seek(.., SEEK_END) uses the size prefetch() worked with, not the file's
           FinishCountsOnce \* mutation: _finish_responses counts the file's outstanding requests once and reads that many packets
 
 None == 0   \* request numbers start at 1
@@ -55,12 +57,13 @@ VARIABLES nextreq, expecting, srvq, resp,
           obs,                  \* the read that completed last: [pos, want, got, vec] (for the properties)
           rb,                   \* bytes of read-ahead in BufferedFile._rbuffer: the caller's position is realpos - rb
           apos,                 \* ghost: the position the application's calls have asked for (seek / read semantics)
-          flow                  \* flow control and SFTPClient._lock: [rc, rn, sc, sn, lock, inhand]
+          flow,                 \* flow control and SFTPClient._lock: [rc, rn, sc, sn, lock, inhand]
+          psize                 \* the size the running prefetch() was given / found (-1: not prefetching)
 proto == <<nextreq, expecting, srvq, resp, flow>>
 pfst  == <<prefetching, pfdone, extents, pdata, savedExc>>
-bufv  == <<rb, apos>>
+bufv  == <<rb, apos, psize>>
 vars  == <<nextreq, expecting, srvq, resp, realpos, prefetching, pfdone, extents, pdata, savedExc,
-           reqs, werr, raised, app, nops, closed, pfs, obs, rb, apos, flow>>
+           reqs, werr, raised, app, nops, closed, pfs, obs, rb, apos, flow, psize>>
 
 Min(a, b) == IF a < b THEN a ELSE b
 Max(a, b) == IF a < b THEN b ELSE a
@@ -79,7 +82,7 @@ Init ==
   /\ realpos = 0 /\ prefetching = FALSE /\ pfdone = FALSE /\ extents = Empty /\ pdata = Empty
   /\ savedExc = "none" /\ reqs = <<>> /\ werr = FALSE /\ raised = FALSE
   /\ app = AppIdle /\ nops = 0 /\ closed = FALSE /\ pfs = <<>> /\ obs = NoObs
-  /\ rb = 0 /\ apos = 0
+  /\ rb = 0 /\ apos = 0 /\ psize = -1
   /\ flow = [rc |-> ReqCap, rn |-> 0, sc |-> RespCap, sn |-> 0, lock |-> FALSE, inhand |-> NoPkt]
 
 \* flow control: a sender needs credit; the receiver hands consumed credit back in lumps
@@ -231,9 +234,9 @@ ReadDone(a) == [AppIdle EXCEPT !.pc = IF a.vq # <<>> THEN "rv_next" ELSE "idle",
 Result(a) == Min(a.want, a.got)
 ObsOf(a) == [pos |-> a.rpos, want |-> a.want, got |-> Result(a), vec |-> a.vec, set |-> TRUE]
 Finished(a) == /\ app' = ReadDone(a) /\ obs' = ObsOf(a)          \* read() returns
-               /\ rb' = a.got - Result(a) /\ apos' = apos + Result(a)
+               /\ rb' = a.got - Result(a) /\ apos' = apos + Result(a) /\ UNCHANGED psize
 Failed(a)   == /\ app' = AppIdle /\ raised' = TRUE                \* IOError out of read(): what was fetched stays buffered
-               /\ rb' = a.got /\ UNCHANGED <<apos, obs>>
+               /\ rb' = a.got /\ UNCHANGED <<apos, obs, psize>>
 \* the size BufferedFile.read passes to _read, capped by SFTPFile._read at MAX_REQUEST_SIZE
 Ask(a) == Min(IF BufSize > 0 THEN Max(BufSize, a.want - a.got) ELSE a.want - a.got, Chunk)
 
@@ -280,7 +283,8 @@ PfLoopGiveUp ==   \* nothing buffered and prefetch finished: self._prefetching =
        ELSE /\ AsyncReq("sync", "read", realpos, Ask(app))
             /\ app' = [app EXCEPT !.pc = "wait_read", !.num = nextreq]
             /\ UNCHANGED resp
-  /\ UNCHANGED <<realpos, pfdone, extents, pdata, savedExc, reqs, werr, raised, nops, closed, pfs, obs, bufv>>
+  /\ psize' = -1
+  /\ UNCHANGED <<realpos, pfdone, extents, pdata, savedExc, reqs, werr, raised, nops, closed, pfs, obs, rb, apos>>
 PfLoopWait ==     \* self.sftp._read_response(); self._check_exception()
   /\ app.pc = "pf_loop" /\ BufFor(realpos) = -1 /\ ~pfdone
   /\ LET nxt == [app EXCEPT !.pc = "pf_check"] IN
@@ -321,15 +325,16 @@ StartPrefetch(chunks, maxc) ==
 RvNext ==        \* for x in chunks: self.seek(x[0]); yield self.read(x[1])
   /\ app.pc = "rv_next"
   /\ IF app.vq = <<>> THEN app' = AppIdle /\ UNCHANGED <<realpos, bufv>>
-     ELSE /\ realpos' = Head(app.vq)[1] /\ rb' = 0 /\ apos' = Head(app.vq)[1]
+     ELSE /\ realpos' = Head(app.vq)[1] /\ rb' = 0 /\ apos' = Head(app.vq)[1] /\ UNCHANGED psize
           /\ app' = [AppIdle EXCEPT !.pc = "rd_loop", !.rpos = Head(app.vq)[1], !.want = Head(app.vq)[2],
                                     !.vq = Tail(app.vq), !.vec = TRUE]
   /\ UNCHANGED <<proto, pfst, reqs, werr, raised, nops, closed, pfs, obs>>
 
 VSeqs == UNION {[1..n -> VChunks] : n \in 1..MaxV}
-PrefetchChunks == LET n == (FileSize - realpos + Chunk - 1) \div Chunk IN
-                  [i \in 1..(IF realpos < FileSize THEN n ELSE 0) |->
-                      <<realpos + (i - 1) * Chunk, Min(Chunk, FileSize - (realpos + (i - 1) * Chunk))>>]
+PrefetchChunksTo(fsz) == LET n == (fsz - realpos + Chunk - 1) \div Chunk IN
+                  [i \in 1..(IF realpos < fsz THEN n ELSE 0) |->
+                      <<realpos + (i - 1) * Chunk, Min(Chunk, fsz - (realpos + (i - 1) * Chunk))>>]
+PrefetchChunks == PrefetchChunksTo(FileSize)
 
 \* ---- op start ----
 StartOp(op) ==
@@ -337,24 +342,25 @@ StartOp(op) ==
   /\ nops' = nops + 1
   /\ CASE op = "prefetch" ->          \* SFTPFile.prefetch(file_size, maxc)
             /\ Len(pfs) < MaxThreads
-            /\ \E maxc \in Limits :
-                 IF PrefetchChunks = <<>> THEN UNCHANGED <<pfs, prefetching, pfdone>>
-                 ELSE StartPrefetch(PrefetchChunks, maxc)
-            /\ obs' = NoObs /\ UNCHANGED <<app, proto, realpos, reqs, closed, bufv>>
+            /\ \E maxc \in Limits, fsz \in PrefSizes :
+                 IF PrefetchChunksTo(fsz) = <<>> THEN UNCHANGED <<pfs, prefetching, pfdone, psize>>
+                 ELSE StartPrefetch(PrefetchChunksTo(fsz), maxc) /\ psize' = fsz
+            /\ obs' = NoObs /\ UNCHANGED <<app, proto, realpos, reqs, closed, rb, apos>>
        [] op = "read" ->              \* BufferedFile.read(n) at the caller's position realpos - rb
             /\ \E n \in ReadSizes :
                  IF n <= rb          \* served from the read-ahead buffer
-                   THEN /\ rb' = rb - n /\ apos' = apos + n /\ UNCHANGED app
+                   THEN /\ rb' = rb - n /\ apos' = apos + n /\ UNCHANGED <<app, psize>>
                         /\ obs' = [pos |-> realpos - rb, want |-> n, got |-> n, vec |-> FALSE, set |-> TRUE]
                    ELSE /\ app' = [AppIdle EXCEPT !.pc = "rd_loop", !.rpos = realpos - rb, !.want = n, !.got = rb]
-                        /\ rb' = 0 /\ obs' = NoObs /\ UNCHANGED apos
+                        /\ rb' = 0 /\ obs' = NoObs /\ UNCHANGED <<apos, psize>>
             /\ UNCHANGED <<proto, pfs, prefetching, pfdone, realpos, reqs, closed>>
        [] op = "seek" ->              \* SFTPFile.seek(offset, whence); the read-ahead is dropped
             /\ \E p \in SeekPos, w \in Whences :
                  LET here == IF SeekFromRealpos THEN realpos ELSE realpos - rb
-                     target == CASE w = 0 -> p [] w = 1 -> here + p [] OTHER -> FileSize - p
+                     fsize == IF SeekEndFromPrefetchSize /\ psize >= 0 THEN psize ELSE FileSize   \* _get_size(): an FSTAT
+                     target == CASE w = 0 -> p [] w = 1 -> here + p [] OTHER -> fsize - p
                      asked  == CASE w = 0 -> p [] w = 1 -> apos + p [] OTHER -> FileSize - p
-                 IN target >= 0 /\ asked >= 0 /\ realpos' = target /\ apos' = asked /\ rb' = 0
+                 IN target >= 0 /\ asked >= 0 /\ realpos' = target /\ apos' = asked /\ rb' = 0 /\ UNCHANGED psize
             /\ obs' = NoObs /\ UNCHANGED <<app, proto, pfs, prefetching, pfdone, reqs, closed>>
        [] op = "readv" ->             \* SFTPFile.readv(chunks, maxc)
             /\ Len(pfs) < MaxThreads
